@@ -8,7 +8,7 @@ From hls Require Import Base Float Lex Kinds Types Tags Line Keys Media.
 From hls.Spec Require Import KeySpec.
 From hls Require Import Master.
 From hls.Generated Require Import Tables.
-From hls.Proofs Require Import KeysProof C06 C11 C03 TextLines AttrText TagText TagTextSegment TagTextDateRange MediaText C03Items ParsedBuilt.
+From hls.Proofs Require Import KeysProof C06 C11 C03 TextLines AttrText TagText TagTextSegment TagTextDateRange MediaText C03Items ParsedBuilt MediaParsedWf.
 
 (* for key lists as consecutive segments of a parse have them (each the marker alone or keys of
    pairwise different formats; keys never vanish without METHOD=NONE), the EXT-X-KEY events the
@@ -135,6 +135,14 @@ Check C03_roundtrip : forall s p, parse_media s = Ok p -> wf_media p = true ->
   /\ Forall2 seg_same (mp_segs (reread p)) (mp_segs p).
 Print Assumptions C03_roundtrip.
 
+(* which parse results are well-formed: all of them, up to conditions on VALUES of the text that the
+   writer cannot carry (`media_domain`, decidable): EXTINF / DATERANGE durations and TIME-OFFSET /
+   client floats that survive the std text conversions, unquoted SCTE35-* values that are plain *)
+Theorem C03_parsed_wf : forall s p, parse_media s = Ok p -> media_domain p = true -> wf_media p = true.
+Proof. exact parsed_media_wf. Qed.
+Check C03_parsed_wf : forall s p, parse_media s = Ok p -> media_domain p = true -> wf_media p = true.
+Print Assumptions C03_parsed_wf.
+
 (* non-vacuity at text level: a parsed playlist with two key formats, a key rotation, METHOD=NONE,
    a map, byte ranges, a date range and fractional durations meets every hypothesis *)
 Definition c03_empty : MediaPlaylist :=
@@ -168,7 +176,7 @@ plain.ts
 Definition c03_raws : list (list xkey) := Eval vm_compute in
   map (fun s => map (fun k => match k with Some d => Some (strip_derived d) | None => None end) (sg_keys s)) (mp_segs c03_p).
 Example C03_text_example :
-  List.length (mp_segs c03_p) = 3%nat /\ wf_media c03_p = true /\ built_ok c03_p c03_raws
+  List.length (mp_segs c03_p) = 3%nat /\ media_domain c03_p = true /\ wf_media c03_p = true /\ built_ok c03_p c03_raws
   /\ parse_media (print_media c03_p) = Ok (reread c03_p).
 Proof.
   assert (Hb : built_ok c03_p c03_raws).
@@ -180,6 +188,6 @@ Proof.
         right; repeat constructor; simpl; intros; try tauto;
         repeat match goal with H : _ \/ _ |- _ => destruct H end; try tauto;
         match goal with H : Some _ = Some _ |- _ => inversion H; subst; vm_compute; reflexivity end. }
-  split; [reflexivity|]. split; [vm_compute; reflexivity|]. split; [exact Hb|].
+  split; [reflexivity|]. split; [vm_compute; reflexivity|]. split; [vm_compute; reflexivity|]. split; [exact Hb|].
   apply (media_text_roundtrip c03_p c03_raws); [vm_compute; reflexivity | exact Hb].
 Qed.
